@@ -270,6 +270,27 @@ func genTree(r *Rng) []PNode {
 	return nodes
 }
 
+// corpus: shapes found by proof attempts and past disagreements
+func symlinkedComponentCase(other string, deref bool) *PCase {
+	// the source directory is reached through a symlinked directory component, and a relative link
+	// with '..' inside it: lexical and kernel resolution of the link differ
+	return &PCase{Src: "@ARENA@/p/lnk/src", Deref: deref, Nodes: []PNode{
+		{Path: "p", Kind: "d", Perm: 0755, Mtime: 1300000000e9},
+		{Path: "q", Kind: "d", Perm: 0755, Mtime: 1300000000e9},
+		{Path: "q/v", Kind: "d", Perm: 0755, Mtime: 1300000000e9},
+		{Path: "q/v/src", Kind: "d", Perm: 0755, Mtime: 1300000000e9},
+		{Path: "q/v/src/f", Kind: "l", Data: "../../x/g"},
+		{Path: "q/v/src/plain", Kind: "f", Perm: 0644, Mtime: 1300000001e9, Data: "plain"},
+		{Path: "p/lnk", Kind: "l", Data: "../q/v"},
+		{Path: "p/x", Kind: "d", Perm: 0755, Mtime: 1300000000e9},
+		{Path: "p/x/g", Kind: "f", Perm: 0600, Mtime: 1300000002e9, Data: "A"},
+		{Path: "q/x", Kind: "d", Perm: 0755, Mtime: 1300000000e9},
+		{Path: "q/x/g", Kind: "f", Perm: 0644, Mtime: 1300000003e9, Data: other},
+	}}
+}
+
+var packCorpus = []*PCase{symlinkedComponentCase("BB", true), symlinkedComponentCase("B", true), symlinkedComponentCase("BB", false)}
+
 func genPCase(r *Rng) *PCase {
 	c := &PCase{Nodes: genTree(r), Src: "@ARENA@/p/src", Deref: r.Chance(40), Ignore: r.Chance(50)}
 	if c.Ignore && r.Chance(60) {
@@ -284,7 +305,12 @@ func genPCase(r *Rng) *PCase {
 func init() {
 	lanes["pack"] = func(cfg *Config, rep *Report) {
 		rep.Rule = "source trees of 1..9 nodes below src (files with modes 0000-0777 and .0/.4/.5/.6 s mtimes, directories incl. empty and read-only, fifos, links: in-tree relative/absolute, dangling, '..' detours, to a prefix-sharing sibling, to an outside file / directory / chain) next to outside decoys, x {dereference} x {ignore on/off with 13 rule files} x allow-lists; non-trivial = has a link, a rule file or a special file; distinct by (tree, options)"
-		runPackLane(cfg, rep, func(r *Rng, i int) []*PCase { return []*PCase{genPCase(r)} })
+		runPackLane(cfg, rep, func(r *Rng, i int) []*PCase {
+			if i < len(packCorpus) {
+				return []*PCase{packCorpus[i]}
+			}
+			return []*PCase{genPCase(r)}
+		})
 	}
 }
 
@@ -388,8 +414,9 @@ func judgePack(rep *Report, c *PCase, arena, src string, allow []string, out pac
 	// tree facts
 	hasOutsideLink := false
 	linkInDerefDir := false
+	srcRel, _ := filepath.Rel(arena, srcReal)
 	for _, n := range c.Nodes {
-		if n.Kind != "l" || !strings.HasPrefix(n.Path, "p/src/") {
+		if n.Kind != "l" || !strings.HasPrefix(n.Path, srcRel+"/") {
 			continue
 		}
 		t := strings.Replace(n.Data, "@ARENA@", arena, 1)
